@@ -70,6 +70,12 @@ MIN_OBLIGATIONS = {"quick": 950, "thorough": 2000}
 LEVEL_TEXT = "Deductive proof that the uniform policy, the quasi-uniform policy with equal spacings and the explicit equally spaced rectilinear grid resolve to field-wise equal solver grids and configurations (all cell counts for the edge arrays; enumerated cell counts for the constructor-derived fields), from which identical simulations follow by determinism"
 LEVEL_NOTE = "real arithmetic; the step from equal configurations to equal runs is a stated determinism argument; constructor-derived fields size-bounded"
 AXIOMS = NP.AXIOMS
+EXPLANATION = (
+    "Three worker jobs bundle the member sessions (obligation names are '<member>:<clause>'): A/U, A/Ru, A/Q (symbolic cell counts, spacing, centre; "
+    "constructor replaced by a recorder) and policy_level; B/frame_check and B/n<shape> for the enumerated cell-count triples "
+    "(2,2,2),(2,4,2),(4,2,6),(1,3,2),(3,1,1),(5,2,3) (thorough: +6) with the real constructor and the real _resolve_grid_from_volume; "
+    "C/forward, C/backward (metric factors on equal widths when the non-uniform path is forced, symbolic cell counts)."
+)
 
 GRID = "fdtdx.core.grid"
 
